@@ -465,7 +465,7 @@ func init() {
 	Register(&Check{
 		ID:    "C18",
 		Level: "model_checking",
-		Rule: "all server lists of length 1..5 (quick) / 1..6 (thorough) over {a, b, c:2222, a.dom} (so all duplicate patterns), given as comma list, as server file (newline-terminated, without final newline, CRLF, reached through a symbolic link and through a chain of two) and through a discovery " +
+		Rule: "a fleet list of 400000 systematically named servers (400 listed twice) as file and comma list in listed order; all server lists of length 1..5 (quick) / 1..6 (thorough) over {a, b, c:2222, a.dom} (so all duplicate patterns), given as comma list, as server file (newline-terminated, without final newline, CRLF, reached through a symbolic link and through a chain of two) and through a discovery " +
 			"module with the filters none, /a/, /^c/, /x/, /./; all lists of length 1..3 over {a, the EMPTY entry, b:2222} as comma list and through the module with the filters none, //, /./, /.*/, /^$/, /a/, /.?/, /^/ (an empty entry matches everything but /./); every random number the shuffle draws is an environment choice and ALL answer sequences are explored " +
 			"(complete tree, no bound); oracle: returned multiset == distinct entries matching the filter; plus, end to end, a real dcat over every list of <=3 entries (every entry an in-process server): each distinct server delivers the file exactly once; and a following client whose connections are all dropped re-connects only to the listed host:port entries (real TCP listeners, virtual time); a server file and a comma list of 3000 entries (2500 distinct); entries with and without a port under a non-default configured port; a server list that can be read only once (a pipe, /dev/fd/N); and a dcat over more unreachable servers than it connects to at a time (CPUs-1, +1, +5 entries, one connection per CPU) contacts each exactly once and ends; distinct = distinct (case, returned order) pairs",
 		Assumptions: []string{"math/rand is replaced by an explorer-owned choice; regexp is trusted"},
